@@ -145,7 +145,10 @@ fn observe<'a, T>(
     get: impl FnOnce(T) -> Val,
 ) -> (Kind, Option<Val>, usize, bool) {
     let wend = window.as_ptr_range().end;
-    let chk = |rem: &'a [u8]| (rem.len(), rem.as_ptr_range().end == wend && rem.len() <= window.len());
+    // an empty remainder says "everything consumed", wherever its (possibly dangling) pointer is
+    let chk = |rem: &'a [u8]| {
+        (rem.len(), rem.is_empty() || (rem.as_ptr_range().end == wend && rem.len() <= window.len()))
+    };
     match r {
         FeedResult::Consumed => (Kind::Consumed, None, 0, true),
         FeedResult::OverFull(rem) => {
@@ -1756,14 +1759,10 @@ fn c09_history<const N: usize>(
     if t.tail.len() > N {
         any_overflow = true;
         out.fault(f9::OVERLONG_TAIL);
-        let overflows = real[ci..].iter().filter(|c| c.kind == Kind::OverFull).count();
-        if overflows == 0 {
-            fail!(
-                "overflow-reported",
-                "the unterminated tail is {} bytes long (capacity {N}) and has been fed completely, but OverFull was never reported",
-                t.tail.len()
-            );
-        }
+        // no verdict on the tail: the statement promises the overflow report "before that
+        // segment's sentinel is passed", and an unterminated tail has no sentinel yet — an
+        // implementation may report the overflow of a segment only with its sentinel
+        let _ = &real[ci..];
     }
     if N <= 3 {
         out.probe(p9::TINY_CAPACITY);
